@@ -14,7 +14,7 @@ EXPLANATION = (
     "accessor is reachable is dominated by features::init. R3: the value given to init derives from the parsed "
     "command line. Agreement of the sub-commands follows because they then compute the same function of the source "
     "under the same flag."
-    ' R1e also: the Err side of a stage result never reaches an Ok return of a Result-returning command. R2 also: a flag-reading closure is only handed to callees that run it on the initialising thread (core/alloc, std outside std::thread, hotwatch::blocking) unless it initialises the flag itself. R4: the text handed to the assembler is read from the path the command names (field, capture or parameter), not from a path computed elsewhere.'
+    ' R1e also: the Err side of a stage result never reaches an Ok return of a Result-returning command. R2 also: a flag-reading closure is only handed to callees that run it on the initialising thread (core/alloc, std outside std::thread, hotwatch::blocking) unless it initialises the flag itself. R4: the text handed to the assembler is read from the path the command names (field, capture or parameter), not from a path computed elsewhere. R5: behind the test of the file extension against "asm" every success path passes all four stages - a source is never run from a stored object or unassembled.'
 )
 NOT_DECIDED = "nothing of substance: the property is decided by R1-R3 (agreement = same stages, same flag)"
 
@@ -300,4 +300,33 @@ def run(ctx):
                               "`%s` reads the text it assembles from a path %s (`%s`), not from the path the command names: it can judge a different file than "
                               "check/compile/run of the same command line do" % (short(n), bad, expr_str(e, 100)))
     ctx.need(nread >= 3, "source reads in the command arms (found %d)" % nread)
+    ctx.finish_rule()
+
+    # ------------------------------------------------------------------ R5
+    # a source file is never run unassembled: in the function that tells object files from sources by the extension, every success path behind
+    # the `"asm"` test passes all four stages (a shortcut that runs a stored object instead lets `run` accept a source that check and compile reject)
+    ctx.rule("C07.R5", "behind the \"asm\" extension test every success path assembles the source", floor=1)
+    nasm = 0
+    for n, f in sorted(prog.fns.items()):
+        if f.bkind != "fn" or not n.startswith("bin::"):
+            continue
+        for gb, lit, true_bb, false_bb in kit.str_eq_guards(prog, f):
+            if lit != "asm" or true_bb is None:
+                continue
+            nasm += 1
+            ctx.instance(1)
+            ins, transfer = sa.analyse(f, start=true_bb)
+            sets = set()
+            for b in f.exits():
+                if b in ins:
+                    o = transfer(b, ins[b])
+                    if o:
+                        sets |= o
+            bad = [s for s in sets if s != ALL]
+            ctx.oblig(not bad, {"in": short(n), "success paths behind \"asm\" pass": [sorted(s) for s in sorted(sets, key=sorted)]}, "all four stages")
+            if bad:
+                ctx.violation("asm-arm-unassembled|%s" % short(n), sp_file_line(f.term(gb).get("sp")),
+                              "`%s` can finish successfully for a `.asm` file after passing only {%s}: the source was not assembled (an object stored earlier "
+                              "was used, or nothing ran), so run accepts a source that check and compile reject" % (short(n), ", ".join(sorted(bad[0])) or "no stage"))
+    ctx.need(nasm >= 1, "test of the file extension against \"asm\" in the binary")
     ctx.finish_rule()
